@@ -3,7 +3,7 @@ from . import COMMON_TB, NOTE
 PROP = {
     "modules": [],
     "streams": [{"name": "incl"}],
-    "rule": "incl: acyclic include graphs of depth <= 4 (1..5 files in nested directories, each independently on disk / registered "
+    "rule": "incl: (a) generated acyclic include graphs of depth <= 4 (1..5 files in nested directories, each independently on disk / registered "
             "through ParseTemplateAndCache only / both with different content / missing, some deliberately failing at parse or "
             "render time), file contents from the template generator (half of them from a filter-free generator that the model "
             "covers completely), a main template at various paths (root, sub-directories, ../ references, a directory that does "
@@ -19,12 +19,28 @@ PROP = {
             "and only when the failing include is the first top-level include of the main template). Disk-before-cache is not "
             "an oracle of its own: it is built into the layout lookup that (1) and (2) use. A case whose layout has a cache-only "
             "file is emitted as an `incl` line, every other case as a `render` line (FS = the disk files); both are answered by "
-            "the model.",
+            "the model. (b) a fixed family of 53 deep and cyclic layouts (stream_incl_depth.go, case lines `incld <want> <render|incl line>`, "
+            "answered by the model like the others): a file that includes itself (after text, as its first node, with hyphens, in a "
+            "sub-directory, through ../, by a variable, by a filtered expression, twice, inside for and capture, at start line 0), 2-cycles and "
+            "3-cycles, a cycle behind a chain, cycles entered only on one branch of if / unless / case (taken: error; not taken: the output), "
+            "cycles whose files write text, assign and capture, a self-include that a counter ends after 1, 5, 99, 100 levels (renders) and "
+            "after 101, 102, 1000 (error), cycles through the template cache (cache-only file, disk + cache, a disk file that breaks the cached "
+            "cycle, a main template cached under its own name), and chains of 1, 2, 50, 99, 100 distinct nested files (render) and 101, 102, 150 "
+            "(error): on the real code a chain of N files below the template renders iff N <= 100, the include tag of the 100th nested file is the "
+            "first to be refused; at the limit a missing file reports the depth error (the test precedes the read), a non-string or failing "
+            "argument its own error (the argument is evaluated first). Oracle of (b): no panic, the render returns within 5 s, want=deep: "
+            "a usable SourceError whose message contains `include nesting too deep`, want=ok: exactly the expected output, want=err:kind: "
+            "that kind and not the depth error; the reference include (bounded by the same documented limit of 100) agrees on "
+            "success/failure and output. The first case of (b) is first run in a killable worker process: if that process dies (the "
+            "unrepaired code) the clause include-cycle-process-death is reported and (b) is skipped.",
     "trusted_base": COMMON_TB + ["POSIX path/filepath (Clean/Join/Dir) and the operating system's file lookup",
                                  "the reference include uses the engine's own expression evaluation and ctx.Bindings()"],
     "assumptions": ["relative names resolve against the directory of the path the MAIN template was parsed with, also inside "
                     "included files (RenderFile compiles an included file with the include tag's location)",
-                    "cyclic include graphs are outside the property"],
+                    "includes nest at most 100 deep (maxIncludeDepth of render/context.go): an include tag in a render that is already "
+                    "nested in 100 include tags fails with an error, so cyclic include graphs end in an error (C01 "
+                    "run_terminates_all_layouts, include_cycle_fails); the equality with a direct render of the file's content is "
+                    "stated below the limit, through the fuel: including at fuel n+1 is rendering the file at fuel n"],
 }
 
 TEXT = {
@@ -50,7 +66,15 @@ TEXT = {
               'a cached source of a file that does not exist acts as that file\'s content (disk_over_cache, cache_fallback); for a '
               "file on disk that compiles and renders normally the handler returns exactly the render of the file's content with the "
               'current variables (include_equiv); fuel n+1 runs the handler with the fuel-n handler inside (incFuel_succ, the '
-              'defining equation; the consequence for chains of depth <= n is not stated as a theorem). Closed form (include_denotation, include_denotation_run, include_denotation_mk): when the argument '
+              'defining equation; the fuel is the number of include levels left, maxIncludeDepth - depth of the Go code, 100 for the template '
+              'itself: runStd). At the limit (Proofs.C14Depth): with no level left every include tag whose argument evaluates to a string '
+              'fails with the depth error located at that tag, whatever the file system holds - the file is not looked at, the '
+              'argument is evaluated first (include_depth_error); a file that includes itself unconditionally (its source compiles '
+              'to literal text, possibly none, followed by an include tag with the same literal name; anything after it) makes '
+              '{% include "a" %} an ERROR at every fuel, start line and environment - never output, never `unmodelled` - with no '
+              'acyclicity hypothesis (include_cycle_fails); for the file T{% include "a" %} in closed form: at fuel n the render is the depth '
+              'error at line (tag line + n x newlines of T), i.e. raised by the n-th nested copy of the file (self_include_depth_error; '
+              'self_include_fails_at_100 for the standard engine). Closed form (include_denotation, include_denotation_run, include_denotation_mk): when the argument '
               'evaluates to a string, the joined path has a source on disk or (only if no such file exists) in the cache, the '
               'source compiles and renders normally with a copy of the current variables to out, the include node is exactly '
               'one write of out to the includer\'s writer and leaves the variables as they were. From source bytes (Proofs.C14Source): the source '
@@ -61,8 +85,10 @@ TEXT = {
               'all others as `render` lines) by the model and the real engine, plus three model-independent oracles: reference '
               'include, inlined output, error table (disk-before-cache is built into the layout lookup the first two use).'),
     "design_ref": 'DESIGN.md 6 C14',
-    "note": NOTE + ('Include depth is bounded by fuel 8 in the driver; a cyclic include is `unmodelled` there and judged by the oracle '
-              'alone. The error theorems are about the model\'s handler; on the real code the location of include errors is compared by the '
+    "note": NOTE + ('The equalities between an include and a direct render of the file (include_equiv, include_denotation*, include_source) are stated '
+              'one fuel level apart (including at fuel n+1 = rendering the file at fuel n): at the nesting limit of 100 the two differ, which '
+              'is what the code does (a chain of 101 nested files fails although its first file renders on its own). The driver runs every '
+              'case with fuel 100 (runStd), so deep and cyclic layouts are answered by the model, not `unmodelled`. The error theorems are about the model\'s handler; on the real code the location of include errors is compared by the '
               'incl and errloc streams (render lines) and checked by the incl error table. The model\'s read error other than not-exist '
               '(include_read_err_located) is not produced by any stream: a name that resolves to a directory is judged by the both-fail '
               'agreement with the reference include only. The path an error from an included file names is the including template\'s - '
